@@ -36,7 +36,13 @@ var verifySpace = engine.Space{
 	engine.D("vIssuer", "I", "I2"),
 	engine.D("extra", "none", "scope", "nested", "client_id"),
 	engine.D("reg", "default", "A-without-jk2", "B-shares-A.k2"),
+	engine.D("entry", "VerifyJWTAssertion", "ClientJWTAuth"),
 }
+
+// profileOf is a ClientJWTProfile (what op.ClientJWTAuth takes) handing out one verifier.
+type profileOf struct{ v *op.JWTProfileVerifier }
+
+func (p profileOf) JWTProfileVerifier(context.Context) *op.JWTProfileVerifier { return p.v }
 
 func peerOf(iss string) string {
 	if iss == A {
@@ -101,7 +107,7 @@ func runVerify(t *testing.T, c *engine.Check) {
 		Part:  "verify",
 		Space: sp,
 		Groups: [][]string{
-			{"iss", "sub", "aud", "kid", "signer", "variant"},
+			{"iss", "sub", "aud", "kid", "signer", "variant", "entry"},
 			{"iat", "exp", "offset", "maxAge", "phase"},
 			{"iss", "kid", "signer", "reg", "variant"},
 		},
@@ -148,10 +154,20 @@ func verifyCase(t *testing.T, r *rig.Rig, reg map[string]map[string]string, g fu
 	}
 	r.Core.Reset(r.Core.St)
 	var obs verifyObs
+	entry := g("entry")
 	obs.pan = engine.Bubble(t, now.Sub(engine.Epoch), func() {
-		obs.req, obs.err = op.VerifyJWTAssertion(context.Background(), tok, ver)
+		switch entry {
+		case "VerifyJWTAssertion":
+			obs.req, obs.err = op.VerifyJWTAssertion(context.Background(), tok, ver)
+		case "ClientJWTAuth": // the authenticated client id is all it returns
+			obs.idOnly = true
+			obs.id, obs.err = op.ClientJWTAuth(context.Background(), oidc.ClientAssertionParams{ClientAssertion: tok, ClientAssertionType: atypeJWT}, profileOf{ver})
+		}
 	})
-	if variant == "keyset" {
+	if entry != "VerifyJWTAssertion" {
+		variant = entry + "-" + variant // site of the signature
+	}
+	if strings.HasSuffix(variant, "keyset") {
 		obs.lookups = ksCalls
 	} else {
 		obs.lookups = keyLookups(r)
@@ -173,6 +189,8 @@ func keyLookups(r *rig.Rig) []string {
 // verifyObs is what one op.VerifyJWTAssertion call did.
 type verifyObs struct {
 	req     *oidc.JWTTokenRequest
+	id      string // idOnly: the entry point returns the authenticated client id instead of the request
+	idOnly  bool
 	err     error
 	pan     string
 	lookups []string // "kid|id" of every key lookup made during the call (storage journal or caller's key set)
@@ -197,7 +215,7 @@ func evalVerify(a assertionT, tok string, expect want, rule, variant, vIssuer st
 	if err != nil {
 		outcome = "rejected:" + errClass(err)
 	}
-	if err != nil && expect != mustAccept && req == nil {
+	if err != nil && expect != mustAccept && req == nil && obs.id == "" {
 		return engine.OK(rule, outcome)
 	}
 	desc := mk()
@@ -208,15 +226,22 @@ func evalVerify(a assertionT, tok string, expect want, rule, variant, vIssuer st
 		return engine.Bad(rule, outcome, "C14/valid-assertion-rejected"+site+"/"+errClass(err), fmt.Sprintf("all conditions of the statement hold but the assertion was rejected (%v): %s", err, desc))
 	}
 	if err != nil {
-		if req != nil {
-			return engine.Bad(rule, outcome, "C14/request-returned-with-error"+site, "a token request was returned together with an error: "+desc)
+		if req != nil || obs.id != "" {
+			return engine.Bad(rule, outcome, "C14/request-returned-with-error"+site, "a token request / client id was returned together with an error: "+desc)
 		}
 		return engine.OK(rule, outcome)
 	}
 	// accepted: the authenticated identity is exactly the issuer, the claims are the signed ones
+	if obs.idOnly {
+		if obs.id != a.iss {
+			return engine.Bad(rule, outcome, "C14/identity-differs-from-iss"+site, fmt.Sprintf("authenticated client id %q, signed iss %q (sub %q): %s", obs.id, a.iss, a.sub, desc))
+		}
+		req = &oidc.JWTTokenRequest{Issuer: a.iss, Subject: a.sub, Audience: nil}
+	}
 	switch {
 	case req == nil:
 		return engine.Bad(rule, outcome, "C14/accepted-without-request"+site, "nil request without error: "+desc)
+	case obs.idOnly: // nothing else is returned
 	case req.Issuer != a.iss:
 		return engine.Bad(rule, outcome, "C14/identity-differs-from-iss"+site, fmt.Sprintf("returned issuer %q, signed iss %q: %s", req.Issuer, a.iss, desc))
 	case req.Subject != a.sub:
